@@ -19,7 +19,7 @@ func init() {
 		ID:          "C13",
 		Explanation: "Decided (narrow: the overlays target the Go 1.20 standard library and cannot be type-checked in this sandbox): (atomic) within the sync/atomic overlay every operation family (Swap, CompareAndSwap, Add, Load, Store) has bodies that are identical modulo the operand type name, and no function of the overlay contains a yield point (channel operation, select, go statement, call into another package other than js) — the stated reason the plain read-modify-write sequences are atomic; (math) a function that merely delegates to JavaScript's Math passes its own parameters in order to the method spelled like the lower-cased Go name (listed exceptions), and the bit-pattern pairs Float32bits/frombits and Float64bits/frombits use the same buffer views and word indices in both directions; (nosync) every exported method of the nosync types exists with the identical signature on the sync type of the same name, no nosync function contains a yield point or imports sync. (bits) Mul32/Add32/Div32 of the math/bits overlay are, statement by statement, the 64-bit algorithms of GOROOT's math/bits under the width substitution 64→32, 63→31, 32→16; (returns) overlay functions that adapt the GOROOT function of the same name (unicode.to) return the same expression lists as it; (typestate) for nosync.Mutex, RWMutex, WaitGroup and Once the transition function derived from the method bodies over their finite state (booleans, counters explored up to 3) is bisimilar, from the zero value, to the specified automaton of the sync type on every uncontended operation — including a panicking f in Once.Do — and panics on every contended or fatal one. NOT decided: any value equality of math, math/bits, unicode, strconv etc. with the upstream implementations (special cases, bit patterns) — which is most of the property; nosync.Pool and nosync.Map (unbounded state); re-entrant use of Once. The claim is deliberately narrow.",
 		Assumptions: []string{"goroutines are cooperative: without a yield point no other goroutine can observe an intermediate state"},
-		Rules:       []RuleFunc{ruleC13Atomic, ruleC13Math, ruleC13Nosync, ruleC13Typestate, ruleC13Bits, ruleC13Returns, ruleC13Ldexp, ruleC13Signbit, ruleC13PoolNil, ruleC13Modf, ruleC13MapPresence, ruleC13ValueCAS},
+		Rules:       []RuleFunc{ruleC13Atomic, ruleC13Math, ruleC13Nosync, ruleC13Typestate, ruleC13Bits, ruleC13Returns, ruleC13Ldexp, ruleC13Signbit, ruleC13PoolNil, ruleC13Modf, ruleC13MapPresence, ruleC13ValueCAS, ruleC13PanicMessages},
 	})
 }
 
